@@ -9,7 +9,7 @@ from ..pyutil import parents
 
 META = {
     'title': 'Invalid WN-LMF is rejected as a whole; scans agree with full loads',
-    'technique': 'folded header constants, dominance in the expat start handler, model<->validator agreement, regex AST of the pre-scan, missing-decoder taint',
+    'technique': 'folded header constants; effect summaries of _read_header, is_lmf, the expat start handler (in the canonical environment of _make_parser) and the validators; regex AST of the pre-scan; missing-decoder search',
     'explanation': (
         'Decides: R1 is_lmf() and load() share the one header check _read_header, is_lmf is False exactly on LMFError, and the '
         'accepted DOCTYPE table is derived from _SCHEMAS for exactly the supported versions (the constants dump() prints); R2 in '
